@@ -24,6 +24,7 @@ var props = []Prop{
 			{Harness: "reporting.ZZC19K2Unreadable", Desc: "ReadFile error degrades to no excerpt", Bounds: map[string]interface{}{"diagnostic_line": "any int"}},
 			{Harness: "reporting.ZZC19K3Small", Desc: "ReportViolation end to end: arbitrary file content (<=7 bytes, <=2 lines, tabs), any existing diagnostic line, any column 1..len+1, 3-byte message, 2 codes: the whole rendered message equals header + numbered window + caret row repeating the line's tabs + help link",
 				Bounds: map[string]interface{}{"content_bytes": 7, "lines": "<=2", "tabs": "<=2", "msg_bytes": 3}},
+			{Harness: "reporting.ZZC19Tabs", Desc: "a 320-byte line with tabs at the start, in the middle and near the end, 14 diagnostic columns over all truncation regimes: caret row repeats the tabs of the DISPLAYED line; excerpt and caret computed from the original line and column", Bounds: map[string]interface{}{"columns": 14}},
 			{Harness: "reporting.ZZC19History", Desc: "history independence: one Reporter renders two diagnostics on the same 500-byte line (11 columns covering the three truncation regimes and their boundaries, second diagnostic on that line or on its neighbour): the second message equals what a fresh Reporter renders", Bounds: map[string]interface{}{"columns": "11 x 11", "second_line": "2..3"}},
 			{Harness: "reporting.ZZC19K4", Tier: "thorough", Desc: "composition on a line longer than the display limit (256 bytes, 6 of them arbitrary), any column: the rendered excerpt and caret row equal truncateString / calculateDisplayColumn of the ORIGINAL line and column", Bounds: map[string]interface{}{"line_bytes": "250..256", "column": "1..len+1"},
 				Setup: func(ex *eng.Explorer, tier string) { ex.MaxDecisions = 2000 }},
@@ -55,6 +56,8 @@ func init() {
 				{Harness: "util.ZZC16History2", Desc: "every history of <= 2 add-operations (scoped or global, 1-2 arbitrary code strings each, arbitrary ranges incl. empty/reversed) then a query: Contains == list-scan reference",
 					Bounds: map[string]interface{}{"ops": "0..2", "codes_per_op": "1..2 (arbitrary strings, atoms)", "range": "start,end in [1,2^31)", "query_pos": "[0,2^31)"}, Setup: withCodesSummary},
 				{Harness: "util.ZZC16History4One", Desc: "every history of <= 4 add-operations with one code each", Bounds: map[string]interface{}{"ops": "0..4", "codes_per_op": 1, "range": "start,end in [1,2^31)", "query_pos": "[0,2^31)"}, Setup: withCodesSummary},
+				{Harness: "util.ZZC16Alphabet3", Desc: "histories of <= 3 operations (one code each) over the property's finite code alphabet {ALL, IMM, IMM01, IMM02, CTOR01, CTOR, CTOR02, XYZ}: concrete spellings, so that code looking INTO the strings (prefix tests etc.) is executed rather than refused as with opaque atoms", Bounds: map[string]interface{}{"ops": "0..3", "codes_per_op": 1, "alphabet": 8}, Setup: withCodesSummary},
+				{Harness: "util.ZZC16Alphabet2Two", Desc: "the same alphabet, <= 2 operations with 1-2 codes each", Bounds: map[string]interface{}{"ops": "0..2", "codes_per_op": "1..2", "alphabet": 8}, Setup: withCodesSummary},
 				{Harness: "util.ZZC16History3", Tier: "thorough", Desc: "every history of <= 3 add-operations with 1-2 codes each", Bounds: map[string]interface{}{"ops": "0..3", "codes_per_op": "1..2"}, Setup: withCodesSummary},
 			},
 			Outside:     []string{"more than 4 markers in one collection; more than 2 codes per marker; ranges containing token.NoPos (0) (outside the property's precondition)", "Add on a nil receiver (no call site passes nil)"},
@@ -221,9 +224,10 @@ func init() {
 		Prop{
 			ID: "C12",
 			Runs: []Run{
-				{Harness: "zzverif/zzh.ZZC12Layout", Desc: "the same six declarations (annotated type, constructor, user function, package-level initialiser, method with receiver overwrite and a shadowing local, @testonly function) in five layouts: canonical, reversed order, split over two files with blank lines / line and block comments inserted, files in another order, locals and receiver consistently renamed; annotations symbolic; 10 statement tags x 4 codes compared", Bounds: map[string]interface{}{"layouts": 5, "holes": 3, "statement_tags": 10}},
+				{Harness: "zzverif/zzh.ZZC12Gofmt", Desc: "two writes that an unformatted source keeps on one physical line (if/else on one line; two statements separated by ';') are reported as often as after gofmt has split the lines", Bounds: map[string]interface{}{"holes": 1}},
+				{Harness: "zzverif/zzh.ZZC12Layout", Desc: "the same six declarations (annotated type, constructor, user function, package-level initialiser, method with receiver overwrite and a shadowing local, @testonly function) in five layouts: canonical, reversed order, split over two files with blank lines / line and block comments inserted, files in another order, locals and receiver consistently renamed; annotations symbolic; 10 statement tags x 4 codes compared", Bounds: map[string]interface{}{"layouts": 7, "holes": 3, "statement_tags": 10}},
 			},
-			Outside:     []string{"gofmt reformatting other than blank lines/comments (line joins/splits)", "TONL01/PKGO01 once-per-file placement under reordering (the using package and type are compared in C03/C04, not here)", "compositions of more than the listed transformations"},
+			Outside:     []string{"gofmt reformatting other than blank lines/comments and the two line-split cases of ZZC12Gofmt", "TONL01/PKGO01 once-per-file placement under reordering (the using package and type are compared in C03/C04, not here)", "compositions of more than the listed transformations"},
 			Assumptions: []string{"as C01-C03"},
 		},
 		Prop{
@@ -240,6 +244,7 @@ func init() {
 			ID: "C09",
 			Runs: []Run{
 				{Harness: "zzverif/zzh.ZZC09Poisoned", PoisonOptional: true, Desc: "(c) every checker with empty local annotations and empty-or-absent imported facts returns no violation under symbolic configuration, with pass.Files / TypesInfo / Fset poisoned (any read aborts): no bound on the analysed program", Bounds: map[string]interface{}{"program": "unbounded (never read)", "imports": 2}},
+				{Harness: "zzverif/zzh.ZZC09Placement", Desc: "(b') VALID annotation lines (5 keywords) at placements that are not doc comments of top-level declarations: trailing comment of a type without doc (multi-line and one-line), a quoted example inside a block-comment doc, doc of a local type, comment in a body, doc of a var; any two at a time; the program mutates/instantiates/uses those types: no annotation, no diagnostic", Bounds: map[string]interface{}{"placements": 6, "non_plain": "<= 2"}},
 				{Harness: "zzverif/zzh.ZZC09Corpus", Desc: "(b) six skeleton programs of C01-C04 with every annotation comment replaced by a near-miss (8 kinds, two independent choices): no annotation, no marker, no diagnostic", Bounds: map[string]interface{}{"programs": 6, "near_miss_kinds": 8}},
 			},
 			Post: func(c *checkCtx) {
@@ -298,6 +303,8 @@ func init() {
 				{Harness: "analyzer.ZZC11Config", GlobalWriteMonitor: true, Desc: "two package actions in either order (plus a repeat) obtain the same configuration object = resolution of the flags; the cache is written only inside sync.Once", Bounds: map[string]interface{}{"actions": 3, "orders": 2, "flag_values": "2x3"}},
 				{Harness: "analyzer.ZZC06Export", GlobalWriteMonitor: true, Desc: "shared-state monitor over all five run*Checker functions: no store to package-level state (or to objects allocated by package initialisers) outside sync.Once / a held lock", Bounds: map[string]interface{}{}},
 				{Harness: "zzverif/zzh.ZZC08AllCheckers", GlobalWriteMonitor: true, Setup: mapOrders, Desc: "all checkers on the all-codes program with EVERY iteration order of every native map of <=3 entries explored as nondeterminism: the diagnostics (position, code) are the same under every order; shared-state monitor on", Bounds: map[string]interface{}{"map_orders": "all permutations of maps with <= 3 entries (larger maps: one order)"}},
+				{Harness: "zzverif/zzh.ZZC11Messages", GlobalWriteMonitor: true, Setup: mapOrders, Desc: "TEXT of PKGO01/PKGO02 for allow-lists with repeated entries over two annotation lines, under every iteration order of every native map with <= 3 entries: the allowed packages are listed in written order", Bounds: map[string]interface{}{"spellings": "3 x 2 x 2"}},
+				{Harness: "zzverif/zzh.ZZC11Commute", GlobalWriteMonitor: true, Desc: "two package actions with look-alike inputs (same-named packages and interfaces at different import paths) run in either order in one process: each package's diagnostics are those of analysing it alone (catches process-wide caches with colliding keys)", Bounds: map[string]interface{}{"orders": 2}},
 				{Harness: "zzverif/zzh.ZZC04Cross", GlobalWriteMonitor: true, Setup: mapOrders, Tier: "thorough", Desc: "packageonly index and allow-lists under all map iteration orders", Bounds: map[string]interface{}{}},
 			},
 			Outside: []string{"real goroutine interleavings inside the drivers and race-detector runs; data races in x/tools itself: not encodable (the claim decided here is: no shared mutable state besides the once-initialised configuration, and results independent of map iteration order; by sync.Once's happens-before guarantee whole-package actions then commute)",
